@@ -34,7 +34,11 @@ CONFIG_BOUND = "one (quick) / all (thorough) listed configurations per environme
 NOT_VERIFIED = ["jit / vmap / scan agreement itself: follows from effect-freedom + determinism by JAX's meta-theory (assumed, not proved); bit-equality of "
                 "float outputs between eager and jit (XLA may fuse float operations)", "configurations outside the list",
                 "BinPack CSVGenerator: reset writes two fields of the State cached by the generator (dead stores: overwritten before being read); "
-                "reported as a hazard, not covered by the configurations"]
+                "reported as a hazard, not covered by the configurations",
+                "PacMan: agreement of plain Python execution with the traced function for its Python-scalar state leaves (initial positions, ghost targets, `dead`): "
+                "the obligation of run_kinds does not discharge within the budgets for PacMan.step (ghost path finding) and is not run",
+                "run_kinds: the tuples of Python-scalar leaves are those met along eager rollouts of 6 steps with three fixed actions (enumerated, a stated bound); "
+                "run_history: sibling configurations are enumerated"]
 ASSUMPTIONS = ["an effect-free closed jaxpr denotes a mathematical function of its inputs; jit/vmap/scan preserve it (JAX meta-theory, XLA)",
                "path-uniqueness lemma: a traced function's Python control flow does not depend on array values (JAX raises a concretisation error otherwise)"]
 FORBIDDEN = ("callback", "debug_print", "debug_callback", "io_callback", "infeed", "outfeed", "print")
@@ -437,10 +441,100 @@ def run_kinds(ctx, name, cfg, steps):
                   targets=[type(env).step], merge_over=4, while_bound=16, expect_cover=True)
 
 
+# ---- "a fresh instance with the same configuration gives the same result", whatever was constructed before --------------------------------
+# Hidden state shared between instances (a module-level cache filled by constructors or generators) makes an instance depend on the instances built
+# earlier in the process.  Obligation: the jaxprs (and their constants) of reset/step of the target configuration, traced on the FIRST instance built
+# in this process, equal those of an instance built AFTER instances of sibling configurations of the same class (all catalogue / contract-module
+# configurations of the environment plus hand-listed siblings that change one constructor argument at a time).  Jaxpr equality is for all inputs.
+def _siblings(name):
+    import importlib
+    from jxv import envdriver
+    sib = dict(E.ALL()[name])
+    for mod in envdriver.modules():
+        m = importlib.import_module("contracts." + mod)
+        if m.ENV == name and hasattr(m, "configs"):
+            for k, v in m.configs("thorough").items():
+                sib.setdefault(k, v)
+    if name == "RobotWarehouse":
+        from jumanji.environments import RobotWarehouse
+        from jumanji.environments.routing.robot_warehouse.generator import RandomGenerator as RWGen
+        base = (1, 3, 1, 1, 1, 2)   # shelf_rows, shelf_columns, column_height, num_agents, sensor_range, request_queue_size
+        for i, v in ((0, 2), (1, 5), (2, 2), (4, 2), (5, 4), (5, 1)):
+            args = list(base)
+            args[i] = v
+            sib[f"sibling{i}={v}"] = (lambda a=tuple(args): RobotWarehouse(RWGen(*a), time_limit=7))
+    return sib
+
+
+def _np_consts(consts):
+    out = []
+    for c in consts:
+        if jnp.issubdtype(getattr(c, "dtype", np.int32), jax.dtypes.prng_key):
+            c = jax.random.key_data(c)
+        out.append(np.asarray(c))
+    return out
+
+
+def _trace_in_fresh_process(args):
+    name, cfg, before = args
+    import os
+    import sys
+    sys.path[:0] = [p for p in (os.path.dirname(os.path.dirname(os.path.abspath(__file__))), os.environ.get("VERIF_REPO", "/repo")) if p not in sys.path]
+    import warnings
+    warnings.filterwarnings("ignore")
+    key = jax.random.PRNGKey(0)
+
+    def trace(env):
+        state, ts, a = E.example(env, 0)
+        return {"reset": jax.make_jaxpr(env.reset)(key), "step": jax.make_jaxpr(env.step)(state, a)}
+    note = None
+    if before is not None:
+        try:
+            sib_env = _siblings(name)[before]()   # construct the sibling first ...
+        except Exception as ex:
+            sib_env, note = None, f"sibling {before} not constructible: {type(ex).__name__}"
+        if sib_env is not None:
+            try:
+                trace(sib_env)                    # ... and use it (caches may be filled lazily); a sibling that cannot be traced was still constructed
+            except Exception:
+                pass
+    try:
+        t = trace(E.ALL()[name][cfg]())
+    except Exception as ex:   # the target itself no longer constructs / traces in this history: reported as a difference by the caller
+        msg = f"raised {type(ex).__name__}: {str(ex)[:120]}"
+        return {"reset": (msg, []), "step": (msg, [])}, note
+    return {fn: (str(cj.jaxpr), _np_consts(cj.consts)) for fn, cj in t.items()}, note
+
+
+def run_history(ctx, name, cfg):
+    """one freshly spawned interpreter per history: [target] (the reference) and [sibling k, target] for every sibling k"""
+    import multiprocessing as mp
+    title = f"{name}@{cfg}"
+    sibs = [k for k in _siblings(name) if k != cfg]
+    with mp.get_context("spawn").Pool(min(4, 1 + len(sibs)), maxtasksperchild=1) as pool:   # a FRESH interpreter for every history
+        res = pool.map(_trace_in_fresh_process, [(name, cfg, None)] + [(name, cfg, k) for k in sibs], chunksize=1)
+    ref = res[0][0]
+    for fn in ("reset", "step"):
+        bad = []
+        for k, (r, note) in zip(sibs, res[1:]):
+            if note is None and not (r[fn][0] == ref[fn][0] and _consts_equal(r[fn][1], ref[fn][1])):
+                bad.append(k)
+        ctx.structural(f"{name}.{fn}@{cfg}/C02.instance_built_after_a_sibling_configuration_equals_the_first_instance", not bad,
+                       "jaxpr + constants comparison (all inputs), one fresh interpreter per history",
+                       detail={"histories": [[k, cfg] for k in sibs], "not_constructible": [n for _, n in res[1:] if n]},
+                       witness=None if not bad else {"history": f"fresh interpreter: construct and use {bad[0]}, then construct {cfg}",
+                                                     "versus": f"fresh interpreter: construct {cfg}", "siblings_that_change_the_result": bad,
+                                                     "target_after_the_sibling": next(r[fn][0] for k, (r, _) in zip(sibs, res[1:]) if k == bad[0])[:200]})
+
+
 def tasks(tier):
     out = {}
-    # (PacMan also returns Python scalars, but its step takes ~35 min to decide here: thorough tier only)
-    for name in ("FlatPack", "Tetris") if tier == "quick" else E.QUICK:
+    for name in E.QUICK:
+        cfg = E.QUICK[name][0]
+        out[f"history:{name}@{cfg}"] = (run_history, {"name": name, "cfg": cfg})
+    # (PacMan also returns Python scalars in some state leaves, but its step - ghost path finding on a 31x28 maze, twice per obligation - does not
+    #  discharge within the budgets (35 min and 18 undecided in a trial): NOT covered, listed in NOT_VERIFIED)
+    for name in ("FlatPack", "Tetris") if tier == "quick" else [n for n in E.QUICK if n != "PacMan"]:
         cfg = list(E.configs(name, tier))[0]
         out[f"kinds:{name}@{cfg}"] = (run_kinds, {"name": name, "cfg": cfg, "steps": 6})
     for name in E.QUICK:
@@ -457,8 +551,10 @@ LEVEL_TEXT = ("Proof of purity per configuration: the jaxprs JAX extracts from t
               "path-uniqueness lemma, executes every Python statement any call can execute) shows that no argument, no object reachable from the environment and "
               "no module global is written. Determinism of the function follows: a closed effect-free jaxpr is a mathematical function of its inputs. Agreement of the "
               "TRACED function with jit/vmap/scan follows from JAX's meta-theory (assumed). Agreement of PLAIN PYTHON execution with the traced function is an obligation "
-              "where it is not automatic: environments whose eager states carry Python scalars (FlatPack, Tetris; PacMan in the thorough tier) are proved, for every "
+              "where it is not automatic: environments whose eager states carry Python scalars (FlatPack, Tetris; PacMan's step is out of reach of this obligation and is listed as not verified) are proved, for every "
               "tuple of such scalars met along eager rollouts (enumerated) and all array leaves and actions (symbolic), to return the same from step whether those "
-              "leaves enter as Python scalars or as jit arguments.")
+              "leaves enter as Python scalars or as jit arguments. Independence of an instance from the instances constructed before it (no state shared through module-level "
+              "caches) is an obligation too: per sibling configuration, in a fresh interpreter, the target built after the sibling has the same reset/step jaxprs and "
+              "constants as the target built first.")
 LEVEL_NOTE = ("jit/vmap/scan preservation and XLA are assumed (the part of the statement about program transformations is not mechanised here); float bit-equality "
               "between eager and jit is outside any contract; configurations enumerated; eager repeat/fresh-instance equality is a bounded stand-in.")
